@@ -204,7 +204,10 @@ impl<'ctx> Ledger<'ctx> {
                 target,
             }) => {
                 let mut converted = Balance::default();
-                for (account, original_amount) in balance.iter() {
+                // Sorts by the account name, otherwise the reported error depends on HashMap iteration order.
+                let mut accounts: Vec<(&Account<'ctx>, &Amount<'ctx>)> = balance.iter().collect();
+                accounts.sort_unstable_by_key(|(a, _)| a.as_str());
+                for (account, original_amount) in accounts {
                     converted.add_amount(
                         *account,
                         price_db::convert_amount(
